@@ -92,6 +92,29 @@ def _roles(facts, tr):
                     v = peel(v[1])
                 if v[0] == "binop" and v[1].startswith("Add"):
                     roles.setdefault(b0.def_, role)
+    # the mutator is the innermost such method: one that reaches another candidate (an `apply_check_outcome` that calls
+    # record_failure and set_status) is a user of the mutators, to be looked through like any other helper
+    def reaches(d, depth=0, seen=None):
+        seen = seen if seen is not None else set()
+        b_ = facts.bodies.get(d)
+        if b_ is None or depth > 3 or d in seen:
+            return set()
+        seen.add(d)
+        out = set()
+        for x in [b_] + [k_ for k_ in descendants(facts, b_) if k_ is not b_]:
+            for c in graph(x).calls():
+                for t in c.targets_def():
+                    if facts.bodies.get(t) is not None and t != d:
+                        out.add(t)
+                        out |= reaches(t, depth + 1, seen)
+                for a_ in c.args:
+                    fi = (a_.get("const") or {}).get("fn") if isinstance(a_, dict) else None
+                    if fi and facts.bodies.get(fi.get("def")) is not None:
+                        out.add(fi["def"])
+        return out
+    for d in list(roles):
+        if reaches(d) & (set(roles) - {d}):
+            del roles[d]
     return roles
 
 
